@@ -521,6 +521,9 @@ def step (s : St) (line : String) : St × String :=
           | .ok () => s!"ok {entryNameLen nm len}"
           | .error e => "err " ++ e.name) ++ unsafeTag r.2)
       | _, _, _, _, _ => (s, "bad-op")
+  | ["codecret", outsize, ret] => match u32 outsize, ret.toInt? with
+      | some o, some r => (s, if codecContract o r then "ok" else "VIOLATES")
+      | _, _ => (s, "bad-op")
   | ["walk", spec] => (s, walkOp s.fixed 4096 spec)
   | ["walkl", limit, spec] => match num limit with
       | some limit => (s, walkOp s.fixed limit spec)
